@@ -113,6 +113,19 @@ def main():
             mod.search(ctx)
         except Infra as e:
             print('INFRA during search: %s' % e)
+        except Exception as e:
+            # same reading as above: an exception from inside the code under test on a generated case is a failing input; a harness
+            # error while reading an observable leaves the verdict at the break already recorded
+            tb = traceback.extract_tb(e.__traceback__)
+            repo = os.path.realpath(os.environ.get('VERIF_REPO', '/repo'))
+            in_repo = [f for f in tb if os.path.realpath(f.filename).startswith(repo + os.sep)]
+            traceback.print_exc()
+            if in_repo and getattr(ctx, 'last_case', None) is not None and not isinstance(e, (MemoryError, KeyboardInterrupt)):
+                f = in_repo[-1]
+                ctx.fail_input(ctx.last_case, 'the code under test raised %s: %s at %s:%d (%s) on this generated case (or the one generated right after it)'
+                               % (type(e).__name__, str(e)[:120], os.path.relpath(f.filename, repo), f.lineno, f.name))
+            else:
+                print('search stopped by a harness error: %s' % type(e).__name__)
 
     # ---- 4. verdict ----
     lines, rc = [], 0
